@@ -320,9 +320,16 @@ inline Sx parse_summary(std::string const& text)
 // examples do) the base class without the random engine
 template <typename C, typename CbC = C> struct BuiltinCb
 {
-    hep::callback<CbC> inner; int mode; std::string filename; bool keep;
+    // shared: the integrators get a copy of this wrapper that refers to ONE library callback object for all the runs of a case (what
+    // passing std::ref(callback) does); otherwise every run starts from a copy of the freshly constructed callback
+    std::shared_ptr<hep::callback<CbC>> inner_; int mode; std::string filename; bool keep; bool shared;
+    BuiltinCb(hep::callback<CbC> const& cb, int mode, std::string const& filename, bool keep, bool shared = false)
+        : inner_(std::make_shared<hep::callback<CbC>>(cb)), mode(mode), filename(filename), keep(keep), shared(shared) {}
+    BuiltinCb(BuiltinCb const& o)
+        : inner_(o.shared ? o.inner_ : std::make_shared<hep::callback<CbC>>(*o.inner_)), mode(o.mode), filename(o.filename), keep(o.keep), shared(o.shared) {}
     bool operator()(C const& c)
     {
+        hep::callback<CbC>& inner = *inner_;
         std::ostringstream capture;
         std::streambuf* old = std::cout.rdbuf(capture.rdbuf());
         if (!keep) ::unlink(filename.c_str());
@@ -385,7 +392,7 @@ template <typename T> struct Spec
     bool force_acc = false;
     Integrand<T> f; Map<T> map;
     bool builtin = true; int mode = 0; T target = T(); std::vector<bool> script;
-    std::string filename; bool keepfile = false; bool cbbase = false;
+    std::string filename; bool keepfile = false; bool cbbase = false; bool cbref = false;
 };
 
 #ifdef VERIF_MPI
@@ -601,6 +608,7 @@ template <typename T> Sx run_case(std::string const& cmd, Sx const& a)
     sp.filename = std::string(tmpdir ? tmpdir : ".") + "/verif_chk_" + std::to_string(::getpid()) + ".txt";
     if (Sx const* e = a.find("keepfile")) { sp.filename = e->at(1).S_(); sp.keepfile = true; }
     sp.cbbase = num("cbbase", 0) != 0;
+    sp.cbref = num("cbref", 0) != 0;
     Sx const& ops = a.find("ops")->at(1);
     Sx const& ck = a.find("chk")->at(1);
     bool const with_dists = !sp.dists.empty() || sp.force_acc;
@@ -611,8 +619,8 @@ template <typename T> Sx run_case(std::string const& cmd, Sx const& a)
     {
         using C = PChk<T>;
         C chk = hep::make_plain_chkpt<T, script_engine>(script_engine(pos0));
-        BuiltinCb<C> bcb{hep::callback<C>(modes[sp.mode & 3], sp.filename, sp.target), sp.mode, sp.filename, sp.keepfile}; ScriptCb<C> scb{sp.script};
-        BuiltinCb<C, hep::plain_chkpt<T>> bbb{hep::callback<hep::plain_chkpt<T>>(modes[sp.mode & 3], sp.filename, sp.target), sp.mode, sp.filename, sp.keepfile};
+        BuiltinCb<C> bcb{hep::callback<C>(modes[sp.mode & 3], sp.filename, sp.target), sp.mode, sp.filename, sp.keepfile, sp.cbref}; ScriptCb<C> scb{sp.script};
+        BuiltinCb<C, hep::plain_chkpt<T>> bbb{hep::callback<hep::plain_chkpt<T>>(modes[sp.mode & 3], sp.filename, sp.target), sp.mode, sp.filename, sp.keepfile, sp.cbref};
         result = run_ops<T>(sp, ops, chk, [&](std::vector<std::size_t> const& calls, C const& c) {
             auto i1 = mk_int1<T>(sp); auto i0 = mk_int0<T>(sp);
             if (sp.builtin && sp.cbbase) return with_dists ? hep::plain(i1, calls, c, bbb) : hep::plain(i0, calls, c, bbb);
@@ -635,8 +643,8 @@ template <typename T> Sx run_case(std::string const& cmd, Sx const& a)
         C chk = ck.at(0).is_sym("pdf")
             ? hep::make_vegas_chkpt<T, script_engine>(make_pdf<T>(ck.at(1).N_(), ck.at(2).N_(), floats<T>(ck.at(3))), static_cast<T>(ck.at(4).F_()), script_engine(pos0))
             : hep::make_vegas_chkpt<T, script_engine>(static_cast<std::size_t>(ck.at(1).N_()), static_cast<T>(ck.at(2).F_()), script_engine(pos0));
-        BuiltinCb<C> bcb{hep::callback<C>(modes[sp.mode & 3], sp.filename, sp.target), sp.mode, sp.filename, sp.keepfile}; ScriptCb<C> scb{sp.script};
-        BuiltinCb<C, hep::vegas_chkpt<T>> bbb{hep::callback<hep::vegas_chkpt<T>>(modes[sp.mode & 3], sp.filename, sp.target), sp.mode, sp.filename, sp.keepfile};
+        BuiltinCb<C> bcb{hep::callback<C>(modes[sp.mode & 3], sp.filename, sp.target), sp.mode, sp.filename, sp.keepfile, sp.cbref}; ScriptCb<C> scb{sp.script};
+        BuiltinCb<C, hep::vegas_chkpt<T>> bbb{hep::callback<hep::vegas_chkpt<T>>(modes[sp.mode & 3], sp.filename, sp.target), sp.mode, sp.filename, sp.keepfile, sp.cbref};
         result = run_ops<T>(sp, ops, chk, [&](std::vector<std::size_t> const& calls, C const& c) {
             auto i1 = mk_int1<T>(sp); auto i0 = mk_int0<T>(sp);
             if (sp.builtin && sp.cbbase) return with_dists ? hep::vegas(i1, calls, c, bbb) : hep::vegas(i0, calls, c, bbb);
@@ -659,8 +667,8 @@ template <typename T> Sx run_case(std::string const& cmd, Sx const& a)
         C chk = ck.at(0).is_sym("weights")
             ? hep::make_multi_channel_chkpt<T, script_engine>(floats<T>(ck.at(1)), static_cast<T>(ck.at(2).F_()), static_cast<T>(ck.at(3).F_()), script_engine(pos0))
             : hep::make_multi_channel_chkpt<T, script_engine>(static_cast<T>(ck.at(1).F_()), static_cast<T>(ck.at(2).F_()), script_engine(pos0));
-        BuiltinCb<C> bcb{hep::callback<C>(modes[sp.mode & 3], sp.filename, sp.target), sp.mode, sp.filename, sp.keepfile}; ScriptCb<C> scb{sp.script};
-        BuiltinCb<C, hep::multi_channel_chkpt<T>> bbb{hep::callback<hep::multi_channel_chkpt<T>>(modes[sp.mode & 3], sp.filename, sp.target), sp.mode, sp.filename, sp.keepfile};
+        BuiltinCb<C> bcb{hep::callback<C>(modes[sp.mode & 3], sp.filename, sp.target), sp.mode, sp.filename, sp.keepfile, sp.cbref}; ScriptCb<C> scb{sp.script};
+        BuiltinCb<C, hep::multi_channel_chkpt<T>> bbb{hep::callback<hep::multi_channel_chkpt<T>>(modes[sp.mode & 3], sp.filename, sp.target), sp.mode, sp.filename, sp.keepfile, sp.cbref};
         result = run_ops<T>(sp, ops, chk, [&](std::vector<std::size_t> const& calls, C const& c) {
             auto i1 = mk_mc1<T>(sp); auto i0 = mk_mc0<T>(sp);
             if (sp.builtin && sp.cbbase) return with_dists ? hep::multi_channel(i1, calls, c, bbb) : hep::multi_channel(i0, calls, c, bbb);
